@@ -119,3 +119,95 @@ def _fam_fut():
 
 # check id -> scenario factory, as used by the determinism self-test
 FAMILY = {"C09": _fam_pool("C09"), "C10": _fam_pool("C10"), "C11": _fam_pool("C11"), "C16": _fam_fut}
+
+
+# ---------------------------------------------------------------------------
+# full-system checks
+
+REAL_SYS = [
+    "jsonrpclib.SimpleJSONRPCServer (dispatcher, request handler, plain and pooled servers) - real code, line-level pre-emption",
+    "jsonrpclib.jsonrpc (ServerProxy, MultiCall, Transport, UnixTransport) - real code, line-level pre-emption",
+    "jsonrpclib.threadpool - real code",
+    "stdlib socketserver, http.server, http.client, xmlrpc.client.Transport, xmlrpc.server dispatcher, socket.SocketIO, io buffering, queue.Queue, json, email header parsing - real code",
+]
+STUB_SYS = [
+    "kernel sockets (TCP, Unix): simverif/simnet.py byte pipes with seeded segmentation and delay",
+    "select/poll: SimSelector",
+    "threading primitives, time.monotonic/time.time: simulated",
+    "fcntl: disabled (module's own 'other systems' branch)",
+    "TLS (SafeTransport) never connected",
+]
+ASSUME_SYS = [
+    "small-scope: at most 4 client threads, 4 operations each, request pools of at most 4 workers (default pool of 30 also used)",
+    "pre-emption at synchronisation/socket operations and source lines of jsonrpclib modules; stdlib internals between two simulated operations are atomic",
+    "time-outs fire only when no simulated thread is runnable",
+    "sampling, not exhaustive",
+]
+
+RULE_SYS = (
+    "each evaluation = one generated system program (server kind/transport/pools, per-client request lists, lifecycle; JSON, see samples) "
+    "run once under one seeded schedule and one seeded network behaviour (segmentation, delivery delay); distinct = distinct digest of "
+    "(context-switch sequence, history, network choices); non-trivial = at least one context switch and at least one registered "
+    "callable executed (or a lifecycle-only history)"
+)
+
+
+def _c12():
+    from . import syscheck
+
+    def run(tier, seed, budget_s, jobs):
+        return runner.run_check(
+            syscheck.C12Scenario, "system-c12", "C12", "C12", tier, seed, budget_s, jobs,
+            level="exploration", rule=RULE_SYS, assumptions=ASSUME_SYS,
+            real_components=REAL_SYS, stub_components=STUB_SYS,
+            required_probes=["lifecycle_serve", "lifecycle_never-served", "lifecycle_shutdown-inflight", "lifecycle_handle-loop",
+                             "server_plain", "server_pooled", "server_pooled-user", "family_unix", "family_tcp",
+                             "two_methods_executing_at_once", "shutdown_with_request_in_flight", "invalid_body_sent"])
+
+    return run
+
+
+REGISTRY["C12"] = {"budget": {"quick": 60, "thorough": 1200}, "run": _c12()}
+
+
+def _c12_scn(body):
+    from . import syscheck
+
+    return syscheck.C12Scenario()
+
+
+SCENARIOS["system-c12"] = _c12_scn
+FAMILY["C12"] = lambda: _c12_scn(None)
+
+
+def _sys2(prop, cls_name, scn_name, required, budget):
+    def factory(body=None):
+        from . import syscheck2
+
+        return getattr(syscheck2, cls_name)()
+
+    def run(tier, seed, budget_s, jobs):
+        return runner.run_check(
+            factory, scn_name, prop, prop, tier, seed, budget_s, jobs,
+            level="exploration", rule=RULE_SYS, assumptions=ASSUME_SYS,
+            real_components=REAL_SYS, stub_components=STUB_SYS, required_probes=required)
+
+    REGISTRY[prop] = {"budget": budget, "run": run}
+    SCENARIOS[scn_name] = factory
+    FAMILY[prop] = factory
+
+
+_sys2("C01", "C01Scenario", "system-c01",
+      ["server_plain", "server_pooled", "server_pooled-user", "server_dispatcher", "transport_tcp", "transport_unix",
+       "transport_loopback", "server_version_1.0", "server_version_2.0", "client_version_1.0", "client_version_2.0",
+       "style_call", "style_batch", "params_keyword", "params_positional", "dotted_name", "unicode_name", "jsonclass_off",
+       "short_reads"],
+      {"quick": 45, "thorough": 900})
+_sys2("C04", "C04Scenario", "system-c04",
+      ["server_dispatcher", "server_plain", "server_pooled", "npool_on", "npool_off", "dispatch_default", "dispatch_direct",
+       "dispatch_instance", "notifications_on_pool_workers", "batch_with_notifications", "empty_string_id", "null_id"],
+      {"quick": 45, "thorough": 900})
+_sys2("C13", "C13Scenario", "system-c13",
+      ["server_dispatcher", "server_pooled", "server_version_1.0", "server_version_2.0", "two_dispatches_in_flight",
+       "mixed_1.0_and_2.0_requests", "dispatch_direct", "dispatch_instance"],
+      {"quick": 45, "thorough": 900})
